@@ -160,7 +160,7 @@ func cmdCheck(args []string) int {
 		cf := eng.cfiles[path]
 		p := eng.pkgs[path]
 		for _, ct := range cf.Contracts {
-			if ct.Extern || ct.Trusted || !hasProp(ct.Props) {
+			if ct.Extern || ct.Trusted || !hasProp(ct.Props) || strings.HasPrefix(ct.Key, "type:") {
 				continue
 			}
 			if *only != "" && !strings.Contains(ct.Key, *only) {
@@ -181,6 +181,11 @@ func cmdCheck(args []string) int {
 	genS := time.Since(t0).Seconds() - loadS
 	var obls []*Obl
 	for _, r := range results {
+		if p := eng.pkgs[r.PkgPath]; p != nil && len(p.GoFiles) > 0 {
+			for _, o := range r.Obls {
+				o.PkgDir = filepath.Dir(p.GoFiles[0])
+			}
+		}
 		obls = append(obls, r.Obls...)
 	}
 	timeout := 10
